@@ -127,3 +127,78 @@ def memory(shape, colors, rng):
           kwonly=['rng'], props=['C13'])
 def memory_too_few_colors(shape, colors, rng):
     ensures('rejected', lambda: raised(ValueError))
+
+
+# for pos in sample_positions: assert floor; grid[pos] = MovingObstacle()
+@loop_invariant(target=RS + 'dynamic_obstacles', loop=0, kind='indexed', modifies=['state'])
+def dynamic_obstacles_inv(k, n, item, pre, state):
+    g = state.grid
+    g0 = pre.state.grid
+    return (g.shape == g0.shape
+            and forall_cells(g, lambda c: same(g[c], MovingObstacle() if exists_int(0, k, lambda j: item(j) == c) else g0[c]))
+            # the sampled cells are pairwise distinct vacant floor cells other than the agent's
+            and forall_int(0, n, lambda j: in_grid(g0, item(j)) and isinstance(g0[item(j)], Floor)
+                           and item(j) != state.agent.position)
+            and forall_int(0, n, lambda i: forall_int(0, n, lambda j: implies(item(i) == item(j), lambda: i == j))))
+
+
+@contract(target=RS + 'dynamic_obstacles',
+          args={'shape': 'Shape', 'num_obstacles': 'int', 'random_agent': 'bool', 'rng': 'Rng'}, kwonly=['rng'],
+          props=['C01', 'C02', 'C08', 'C13'])
+def dynamic_obstacles(shape, num_obstacles, random_agent, rng):
+    ensures('only-valueerror', lambda: only_valueerror())
+    ensures('well-formed', lambda: implies(returned(), lambda: well_formed(result(), shape)))
+    ensures('exactly-one-exit', lambda: implies(returned(), lambda: exactly_one(result().grid, lambda o: isinstance(o, Exit))))
+    ensures('interior-is-floor-obstacle-or-the-exit', lambda: implies(returned(), lambda: forall_cells(
+        result().grid, lambda c: implies(not on_border(result().grid.area, c), lambda: isinstance(result().grid[c], Floor)
+                                         or isinstance(result().grid[c], Exit) or isinstance(result().grid[c], MovingObstacle)))))
+    ensures_native('the-requested-number-of-obstacles', lambda: implies(returned(), lambda: sum(
+        1 for p in result().grid.area.positions() if isinstance(result().grid[p], MovingObstacle)) == num_obstacles))
+    ensures_native('too-many-obstacles-are-rejected', lambda: returned() == (
+        shape.height >= 4 and shape.width >= 4 and 0 <= num_obstacles
+        and num_obstacles <= (shape.height - 2) * (shape.width - 2) - 2))
+
+
+# ---------------------------------------------------------------------------------------------------
+# rooms, memory_rooms, crossing use numpy.linspace / shuffles / counted paths: outside the symbolic
+# verifier.  Their contracts are evaluated natively only (bounded stand-in, labelled in the evidence).
+LAYOUT = ('tuple', ['small', 'small'])
+
+
+@contract(target=RS + 'rooms', args={'shape': 'Shape', 'layout': LAYOUT, 'rng': 'Rng'}, kwonly=['rng'], props=['C13'],
+          bounded=True)
+def rooms(shape, layout, rng):
+    requires(shape.height >= 1 and shape.width >= 1)   # quantifier of the property: shapes from 1x1 up
+    requires(layout[0] >= 1 and layout[1] >= 1)     # a layout counts rooms
+    ensures('only-valueerror', lambda: only_valueerror())
+    ensures('well-formed', lambda: implies(returned(), lambda: well_formed(result(), shape)))
+    ensures('exactly-one-exit', lambda: implies(returned(), lambda: exactly_one(result().grid, lambda o: isinstance(o, Exit))))
+
+
+@contract(target=RS + 'memory_rooms',
+          args={'shape': 'Shape', 'layout': LAYOUT, 'colors': ('distinct-set', 'Color', 3), 'num_beacons': 'small',
+                'num_exits': 'small', 'rng': 'Rng'}, kwonly=['rng'], props=['C13', 'C02'], bounded=True)
+def memory_rooms(shape, layout, colors, num_beacons, num_exits, rng):
+    requires(shape.height >= 1 and shape.width >= 1)
+    requires(layout[0] >= 1 and layout[1] >= 1)
+    ensures('only-valueerror', lambda: only_valueerror())
+    ensures('well-formed', lambda: implies(returned(), lambda: well_formed(result(), shape)))
+    def inventory():
+        g = result().grid
+        exits = [g[p] for p in g.area.positions() if isinstance(g[p], Exit)]
+        beacons = [g[p] for p in g.area.positions() if isinstance(g[p], Beacon)]
+        return (len(exits) == num_exits and len(beacons) == num_beacons
+                and len(set(e.color for e in exits)) == len(exits)
+                and len(set(b.color for b in beacons)) == 1
+                and sum(1 for e in exits if e.color is beacons[0].color) == 1)
+    ensures('inventory', lambda: implies(returned(), inventory))
+    ensures('independent-of-hash-order', lambda: effects('set_order') == 0)
+
+
+@contract(target=RS + 'crossing', args={'shape': 'Shape', 'num_rivers': 'small', 'object_type': 'Class0', 'rng': 'Rng'},
+          kwonly=['rng'], props=['C13'], bounded=True)
+def crossing(shape, num_rivers, object_type, rng):
+    requires(shape.height >= 1 and shape.width >= 1)
+    ensures('only-valueerror', lambda: only_valueerror())
+    ensures('well-formed', lambda: implies(returned(), lambda: well_formed(result(), shape)))
+    ensures('exactly-one-exit', lambda: implies(returned(), lambda: exactly_one(result().grid, lambda o: isinstance(o, Exit))))
